@@ -833,7 +833,10 @@ func (w *aWalk) stmt(st ast.Stmt, s aState) aState {
 			if !ok {
 				continue
 			}
-			for _, v := range vs.Values {
+			for i, v := range vs.Values {
+				if u, ok := unparen(v).(*ast.UnaryExpr); ok && u.Op == token.AND && w.mutexExpr(u) && i < len(vs.Names) {
+					continue // var mu = &recv.mutex
+				}
 				s = w.expr(v, s)
 			}
 			for i, n := range vs.Names {
@@ -1144,6 +1147,11 @@ func (w *aWalk) assign(x *ast.AssignStmt, s aState) aState {
 		if _, ok := unparen(r).(*ast.FuncLit); ok && paired {
 			if id, ok := unparen(x.Lhs[i]).(*ast.Ident); ok && id.Obj != nil {
 				continue // a closure bound to a local: its body is walked where it is called
+			}
+		}
+		if u, ok := unparen(r).(*ast.UnaryExpr); ok && paired && u.Op == token.AND && w.mutexExpr(u) {
+			if id, ok := unparen(x.Lhs[i]).(*ast.Ident); ok && id.Obj != nil {
+				continue // mu := &recv.mutex: a local name of the mutex
 			}
 		}
 		s = w.expr(r, s)
